@@ -404,6 +404,7 @@ type texpr struct {
 
 func genTreeCase(t *rapid.T) []texpr {
 	st := vkit.GenStyle(t)
+	st.Backslash = rapid.IntRange(0, 3).Draw(t, "backslashLits") == 0
 	n := rapid.IntRange(1, 7).Draw(t, "nexpr")
 	seen := map[string]bool{}
 
